@@ -16,10 +16,11 @@ import Cinco.Proofs.Complete
     (2) `IPv4NetworkField` with string options that a canonical text `a.b.c.d/len` can fail although another text of the
         same network passes them (`StrOpts.canonSafe`: pattern, `min_len > 9`, `max_len < 18`, choices not closed under
         canonicalisation, a character strip that strips digits): finding F22 — `ipv4net_*_needed`;
-    (3) `FilenameField` with a non-empty start directory, with any options: `Sat` lets a relative path be held, validation
-        resolves it (so `Sat` is strictly larger than the set of results: `filename_startdir_needed`,
-        `filename_startdir_sat_not_a_result`); with string options also an absolute held path can be rejected (finding
-        F25, `filename_startdir_options_needed`).  What is true there: `filename_startdir_absolute_accepted`.
+    (3) `FilenameField` with a non-empty start directory TOGETHER WITH string options: the options are checked on the text
+        as given, the resolved path that is held can violate them (finding F25, `filename_startdir_options_needed`).
+        Without string options a start directory is covered (`filename_startdir_accepted`): under a start directory `Sat`
+        asks the held path to be empty or absolute (`filename_startdir_held_absolute`), and an absolute path is not resolved
+        again; a relative path does not satisfy the declaration there (`filename_startdir_relative_not_sat`).
   NOT excluded (verified against the model): `ChallengeField` — `Sat` holds of digest values only, and a digest value is
   accepted as it is (a plaintext does not satisfy `Sat`; its result depends on the salt the environment returns next:
   `challenge_plaintext_not_sat`, `challenge_plaintext_result`); `SecureField` — validation keeps the text (encryption
@@ -64,12 +65,15 @@ theorem changed_means_no_normal_form (E : Env) (f : FieldSpec) (v v' : Val) (hf 
   cases h
   exact hne rfl
 
-/-- Idempotence again, from soundness and completeness alone.  `CompleteOk` covers declarations outside the guard `IdemOk`
-    of `C05.validate_idem` (an `IPv4NetworkField` with a case transform, whitespace strip, harmless length bounds, closed
-    choices) and `IdemOk` covers some outside `CompleteOk` (a `FilenameField` with a start directory and no options). -/
+/-- Idempotence again, from soundness and completeness alone.  `CompleteOk` covers every declaration in the guard `IdemOk`
+    of `C05.validate_idem` (`idemOk_within_completeOk`) and more: an `IPv4NetworkField` with a case transform, whitespace
+    strip, harmless length bounds, closed choices; a custom validator on the `AnyField` item of a list. -/
 theorem validate_idem_of_complete (E : Env) (hE : EnvOk E) (f : FieldSpec) (v v' : Val) (hf : CompleteOk f = true)
     (h : validate E f v = .ok v') : validate E f v' = .ok v' :=
   validate_complete E f v' hf (validate_sound E hE f v v' h)
+
+theorem idemOk_within_completeOk (f : FieldSpec) (h : IdemOk f = true) : CompleteOk f = true :=
+  completeOk_of_idemOk f h
 
 /-! ## 4. Corollaries spelled out -/
 
@@ -193,19 +197,24 @@ theorem secure_text_accepted (E : Env) (method : String) (req : Bool) (s : Str) 
     validate E (.mk (.secure method) req none) (.str s) = .ok (.str s) :=
   satisfying_value_is_accepted E _ _ rfl (Or.inr ⟨by simp, s, rfl, h⟩)
 
-/-- What is true of the excluded `FilenameField` with a start directory: a held path that is absolute (every path that
-    validation produces there from a non-empty text is) and satisfies the declaration is accepted as it is, when the
-    field has no string options. -/
-theorem filename_startdir_absolute_accepted (E : Env) (o : StrOpts) (ho : o.plain = true) (ex : Exists) (sd : Option Str)
-    (req : Bool) (s : Str) (habs : E.isabs s = true) (h : Sat E (.mk (.filename o ex sd) req none) (.str s)) :
-    validate E (.mk (.filename o ex sd) req none) (.str s) = .ok (.str s) := by
+/-- **`FilenameField(startdir=…)` without string options is covered**: a path satisfying the declaration (with a non-empty
+    start directory: empty or absolute, and meeting the existence constraint) is accepted as it is, whatever the start
+    directory. -/
+theorem filename_startdir_accepted (E : Env) (o : StrOpts) (ho : o.plain = true) (ex : Exists) (sd : Option Str)
+    (req : Bool) (v : Val) (h : Sat E (.mk (.filename o ex sd) req none) v) :
+    validate E (.mk (.filename o ex sd) req none) v = .ok v :=
+  satisfying_value_is_accepted E _ _ (by simp [CompleteOk, CompleteOkKind, ho]) h
+
+/-- the clause of `Sat` that makes this true: under a non-empty start directory a held path is empty or absolute
+    (`os.path.isabs`) — a relative text is never held there, validation resolves it -/
+theorem filename_startdir_held_absolute (E : Env) (o : StrOpts) (ex : Exists) (d : Str) (hd : d ≠ []) (req : Bool) (s : Str)
+    (h : Sat E (.mk (.filename o ex (some d)) req none) (.str s)) : s = [] ∨ E.isabs s = true := by
   rcases h with ⟨h, _⟩ | ⟨_, h⟩
   · cases h
   · simp only [SatKind] at h
-    obtain ⟨s', hs', hreq, hex, _⟩ := h
+    obtain ⟨s', hs', _, _, habs, _⟩ := h
     cases hs'
-    rw [validate_of_ne_none E _ req none (.str s) (by simp)]
-    simp only [validateKind, fileRule_complete_abs ho habs hreq hex]
+    exact habs d rfl hd
 
 /-! ## 5. Every exclusion is needed; every covered kind is inhabited -/
 
@@ -217,7 +226,11 @@ def envU : Env := { env0 with urlOk := fun _ => true }
 /-- `env0` with a validator catalogue that rejects everything -/
 def envR : Env := { env0 with custom := fun _ _ => .error .value }
 
+/-- `env0` with `resolve d t = "/" + d + "/" + t` -/
+def envD : Env := { env0 with resolve := fun d t => '/' :: (d ++ '/' :: t) }
+
 theorem envOk_envU : EnvOk envU := ⟨fun sd t => by simp [envU, env0], by simp [envU, env0]⟩
+theorem envOk_envD : EnvOk envD := ⟨fun sd t => by simp [envD, env0], by simp [envD, env0]⟩
 
 /-! ### (a) the exclusions are needed: a value satisfying the declaration that is not accepted unchanged -/
 
@@ -278,37 +291,18 @@ theorem ipv4net_stripChars_needed :
     Refutes env0 (.mk (.ipv4net { strip := .chars "2".toList } none none) false none) (.str "10.0.0.1/32".toList) :=
   ⟨by decide, net_result_sat (v0 := .str "10.0.0.1".toList) (by decide +kernel), by decide +kernel⟩
 
-/-- the declaration of the next three statements: `FilenameField(startdir='d')`, no options at all -/
+/-- `FilenameField(startdir='d')`, no options at all: covered (see (b)); what a start directory excludes is a RELATIVE held
+    path — validation changes it, so it does not satisfy the declaration -/
 def fileInD : FieldSpec := .mk (.filename {} .any (some "d".toList)) false none
 
-theorem sat_fileInD_relative : Sat env0 fileInD (.str "a".toList) :=
-  Or.inr ⟨by simp, "a".toList, rfl, by simp, Or.inr trivial, "a".toList,
-    strChecks_sat (by decide) trivial trivial, Or.inl rfl⟩
+theorem filename_startdir_relative_not_sat : ¬ Sat envD fileInD (.str "a".toList) :=
+  changed_means_no_normal_form envD fileInD _ (.str "/d/a".toList) (by decide) (by decide +kernel) (by decide)
 
-/-- start directory, no options: the relative path `a` satisfies the declaration, but validation returns `/a` -/
-theorem filename_startdir_needed : Refutes env0 fileInD (.str "a".toList) :=
-  ⟨by decide, sat_fileInD_relative, by decide +kernel⟩
-
-/-- … and no input at all produces `a`: there `Sat` is strictly larger than the set of results, `accepts_exactly` fails -/
-theorem filename_startdir_sat_not_a_result :
-    Sat env0 fileInD (.str "a".toList) ∧ ¬ ∃ v0, validate env0 fileInD v0 = .ok (.str "a".toList) := by
-  refine ⟨sat_fileInD_relative, ?_⟩
-  rintro ⟨v0, h⟩
-  rcases validate_inv_nc h with ⟨_, _, hw⟩ | ⟨_, hk⟩
-  · cases hw
-  · simp only [validateKind, fileRule] at hk
-    obtain ⟨t, ht, h2⟩ := bind_ok hk
-    cases t with
-    | nil => simp at h2
-    | cons c cs =>
-      by_cases hc : c = '/'
-      · subst hc
-        simp [filePath, fileBad, env0] at h2
-      · simp [filePath, fileBad, env0, hc] at h2
+/-- the declaration of F25: `FilenameField(startdir='d', max_len=1)` -/
+def fileInDMax1 : FieldSpec := .mk (.filename { maxLen := some 1 } .any (some "d".toList)) false none
 
 /-- F25: with a string option (`max_len = 1`) even the absolute path `/a` that the field itself returned for `a` is rejected -/
-theorem filename_startdir_options_needed :
-    Refutes env0 (.mk (.filename { maxLen := some 1 } .any (some "d".toList)) false none) (.str "/a".toList) :=
+theorem filename_startdir_options_needed : Refutes env0 fileInDMax1 (.str "/a".toList) :=
   ⟨by decide, validate_sound env0 envOk_env0 _ (.str "a".toList) _ (by decide +kernel), by decide +kernel⟩
 
 /-- a typed list / dict inherits the exclusion of its item / key / value field -/
@@ -318,13 +312,8 @@ theorem item_exclusion_needed :
   ⟨by decide, validate_sound env0 envOk_env0 _ (.tuple [.str "10.0.0.1".toList]) _ (by decide +kernel), by decide +kernel⟩
 
 theorem value_exclusion_needed :
-    Refutes env0 (.mk (.dict none (some fileInD)) false none) (.dict [(.int 1, .str "a".toList)]) := by
-  refine ⟨by decide, Or.inr ⟨by simp, ?_⟩, by decide +kernel⟩
-  simp only [SatKind]
-  exact ⟨_, rfl, by simp, fun kv hkv => by
-    simp only [List.mem_singleton] at hkv
-    subst hkv
-    exact ⟨trivial, sat_fileInD_relative⟩, fun _ => by simp [keysD]⟩
+    Refutes env0 (.mk (.dict none (some fileInDMax1)) false none) (.dict [(.int 1, .str "/a".toList)]) :=
+  ⟨by decide, validate_sound env0 envOk_env0 _ (.dict [(.int 1, .str "a".toList)]) _ (by decide +kernel), by decide +kernel⟩
 
 /-! ### (b) the hypotheses are satisfiable, kind by kind: the declaration is in `CompleteOk`, the value satisfies it (shown
     from an *un-normalised* input through soundness, or by hand), and — by the theorem — it is accepted unchanged -/
@@ -419,6 +408,19 @@ example :
     let f : FieldSpec := .mk (.filename { strip := .ws } .no (some [])) true none
     CompleteOk f = true ∧ Sat env0 f (.str "a/b".toList) ∧ validate env0 f (.str "a/b".toList) = .ok (.str "a/b".toList) :=
   covered env0 envOk_env0 _ (.str " a/b ".toList) _ (by decide) (by decide +kernel)
+
+/-- filename WITH a start directory, no string options: `FilenameField(startdir='d')` holds `/d/a` (from the input `a`) -/
+example : CompleteOk fileInD = true ∧ Sat envD fileInD (.str "/d/a".toList) ∧
+    validate envD fileInD (.str "/d/a".toList) = .ok (.str "/d/a".toList) :=
+  covered envD envOk_envD _ (.str "a".toList) _ (by decide) (by decide +kernel)
+/-- … with `exists=False` and `required=True`, from an input that is already absolute -/
+example :
+    let f : FieldSpec := .mk (.filename {} .no (some "d".toList)) true none
+    CompleteOk f = true ∧ Sat envD f (.str "/x".toList) ∧ validate envD f (.str "/x".toList) = .ok (.str "/x".toList) :=
+  covered envD envOk_envD _ (.str "/x".toList) _ (by decide) (by decide +kernel)
+/-- … and `accepts_exactly` there: `/d/a` is a result, the relative `a` is not -/
+example : ¬ ∃ v0, validate envD fileInD v0 = .ok (.str "a".toList) := fun h =>
+  filename_startdir_relative_not_sat ((accepts_exactly envD envOk_envD fileInD _ (by decide)).1 h)
 
 /-- url (in an environment whose URL parser accepts) -/
 example :
